@@ -32,6 +32,7 @@ type nondetEntry struct {
 	v    *Term // nil for choose
 	val  int
 	n    int
+	node *jnode
 }
 
 // Failure is an assertion failure or an uncaught panic on a feasible path.
@@ -90,6 +91,9 @@ type exec struct {
 	genUUIDs    []*Term
 	onceDone    map[*value]bool
 	wgCount     map[*value]int
+	uuidAxioms  map[int]bool
+	uuidTerms   []*Term
+	uuidSubst   map[string]string
 
 	cover map[*ssa.Function]int // per worker, cumulative
 	stats workerStats
@@ -184,6 +188,9 @@ func (ex *exec) resetPath(prefix []int) {
 	ex.genUUIDs = nil
 	ex.onceDone = nil
 	ex.wgCount = nil
+	ex.uuidAxioms = nil
+	ex.uuidTerms = nil
+	ex.uuidSubst = nil
 	ex.solver.Reset()
 	if ex.fp != nil {
 		ex.fp.Reset()
@@ -382,11 +389,16 @@ func (ex *exec) noteIncomplete(why string) {
 
 func (ex *exec) nondetRecs(model map[string]interface{}) []NondetRec {
 	recs := make([]NondetRec, 0, len(ex.nondets))
-	uuidOf := map[string]string{}
-	nextUUID := 0
 	for _, nd := range ex.nondets {
 		if nd.kind == "choose" {
 			recs = append(recs, NondetRec{Kind: "choose", Val: nd.val, N: nd.n})
+			continue
+		}
+		if nd.kind == "json" {
+			if model == nil {
+				model = map[string]interface{}{}
+			}
+			recs = append(recs, NondetRec{Kind: "json", Val: ex.concretizeJSON(nd.node, model)})
 			continue
 		}
 		var val interface{}
@@ -403,16 +415,12 @@ func (ex *exec) nondetRecs(model map[string]interface{}) []NondetRec {
 		case "float64":
 			f, _ := val.(float64)
 			val = fmt.Sprintf("%x", floatBits(f))
-		case "string":
+		case "string", "uuid":
 			s, _ := val.(string)
-			val = s
-		case "uuid":
-			s, _ := val.(string)
-			if _, ok := uuidOf[s]; !ok {
-				nextUUID++
-				uuidOf[s] = fmt.Sprintf("aaaaaaaa-0000-4000-8000-%012d", nextUUID)
+			if model != nil {
+				s = ex.replayString(nd.v, s, model)
 			}
-			val = uuidOf[s]
+			val = s
 		}
 		recs = append(recs, NondetRec{Kind: nd.kind, Name: nd.v.name, Val: val})
 	}
@@ -541,12 +549,11 @@ func (ex *exec) uncaughtPanic(r interface{}) {
 		ex.noteIncomplete("panic feasibility unknown")
 		return
 	}
-	msg := sanitizeMsg(info.msg)
 	fn := info.fn
 	if fn == "" {
 		fn = info.inner
 	}
-	key := "panic:" + fn + ":" + msg
+	key := "panic:" + strings.TrimPrefix(strings.ReplaceAll(fn, ModulePath+"/", ""), "*") + ":" + panicClass(info.msg) + ":" + info.src
 	ex.recordFailure("panic", key, info.msg, info.pos, info.stack, model)
 }
 
@@ -776,6 +783,7 @@ func (ex *exec) modelTerms(want bool) []*Term {
 		return nil
 	}
 	ts := append([]*Term(nil), ex.tt.vars...)
+	ts = append(ts, ex.uuidTerms...)
 	for _, o := range ex.observe {
 		if s, ok := o.v.(sym); ok && s.t.op != "var" {
 			ts = append(ts, s.t)
